@@ -1,8 +1,38 @@
 import Req.Driver.Proto
+import Req.Pool.Lockset
 /-! Driver lanes of C09. -/
 namespace Req.Driver.L.C09
 open Req.Proto
 
-def lanes : List (String × (List String → String)) := []
+/-! ### `c09lockset <fieldId> <site>/<site>/…`
+site = `<fn hex>:<write 0|1>:<cfg 0|1>:<lock ids comma-joined or ->`.
+Answer: `guarded <common lock ids>` or `unguarded <majority lock> <offending fn hex list>`. -/
+
+def parseSite (s : String) : Option Req.Pool.Lockset.Access :=
+  match s.splitOn ":" with
+  | [fn, w, c, ls] => do
+    let f ← decodeHex fn
+    let locks ← decodeNatList ls
+    let wb ← (if w == "1" then some true else if w == "0" then some false else none)
+    let cb ← (if c == "1" then some true else if c == "0" then some false else none)
+    pure ⟨f.map (·.toNat), wb, cb, locks⟩
+  | _ => none
+
+def encFn (f : List Nat) : String := encodeHex (f.map UInt8.ofNat)
+
+def laneLockset : List String → String
+  | [_fid, sites] =>
+    match (if sites == "-" then some [] else (sites.splitOn "/").mapM parseSite) with
+    | some as =>
+      match Req.Pool.Lockset.verdict as with
+      | .guarded ls => "guarded " ++ encodeNatList ls
+      | .unguarded l fns => "unguarded " ++ toString l ++ " " ++
+          (if fns.isEmpty then "-" else ",".intercalate (fns.map encFn))
+    | none => "bad-op"
+  | _ => "bad-op"
+
+def lanes : List (String × (List String → String)) := [
+  ("c09lockset", laneLockset)
+]
 
 end Req.Driver.L.C09
